@@ -296,17 +296,17 @@ def h6_cfg(N):
 def specs(tier):
     done12 = "g_done[2] && g_done[3]"
     out = [
-        Spec("h1_slot_spurious", build_h1(3, spurious=True), cfg={"notifiers_done_expr": done12}, unwind=5, timeout=600,
+        Spec("h1_slot_spurious", build_h1(3, spurious=True), cfg={"notifiers_done_expr": done12}, unwind=5, timeout=1800,
              desc="real WaitSlot register/wait_while/notify: waiter loop || publishing notifier || stale notifier; park has no timeout",
              bounds={"threads": 3, "wait_rounds": 3, "memory_model": "SC"}),
-        Spec("h2_two_conditions", build_h1(3, two_conds=True), cfg={"notifiers_done_expr": done12}, unwind=5, timeout=600,
+        Spec("h2_two_conditions", build_h1(3, two_conds=True), cfg={"notifiers_done_expr": done12}, unwind=5, timeout=1800,
              desc="waiter needs two publications from two notifiers (each publishes, then notifies)",
              bounds={"threads": 3, "wait_rounds": 3}),
         Spec("h3_commit_predicate_cancel", build_h3(), cfg={"notifiers_done_expr": done12, "type_overrides": sched_overrides()},
-             unwind=5, timeout=600,
+             unwind=5, timeout=1800,
              desc="real commit-loop wait predicate on a real Scheduler || real cancel() || publish_finality+notify",
              bounds={"threads": 3, "wait_rounds": 3}),
-        Spec("h6_finality_announces_n3", build_h6(3), cfg=h6_cfg(3), unwind=11, timeout=600,
+        Spec("h6_finality_announces_n3", build_h6(3), cfg=h6_cfg(3), unwind=11, timeout=1800,
              desc="producer side on the real run_finality_loop: every publication is followed by a commit notification before the loop sleeps or returns "
                   "(every batch shape; ghost candidate lock, ghost wait = environment step)", bounds={"n": 3, "sleeps": 3}),
     ]
